@@ -441,27 +441,13 @@ def _rk_perturb_state(
     outputs=[d.qvel],
   )
 
-  # activation
+  # activation: intermediate stages use the plain update act_t0 + scale * h * act_dot for every
+  # dynamics type (mj_RungeKutta); the exact filter / motor integrators apply to the final advance only
   if m.na and act_t0 is not None:
     wp.launch(
-      _next_activation,
-      dim=(d.nworld, m.nu),
-      inputs=[
-        m.opt.timestep,
-        m.actuator_dyntype,
-        m.actuator_actadr,
-        m.actuator_actnum,
-        m.actuator_dynprm,
-        m.actuator_gainprm,
-        m.actuator_biasprm,
-        m.actuator_actlimited,
-        m.actuator_actrange,
-        act_t0,
-        d.act_dot,
-        d.actuator_velocity,
-        scale,
-        False,
-      ],
+      _next_velocity,
+      dim=(d.nworld, m.na),
+      inputs=[m.opt.timestep, act_t0, d.act_dot, scale],
       outputs=[d.act],
     )
 
